@@ -663,10 +663,40 @@ class _LinalgProxy:
         return _np.linalg.solve(a, b)
 
 
+class _MaProxy:
+    """np.ma: comparisons of symbolic arrays are decided per element (forks) and returned as
+    ordinary masked arrays of booleans."""
+
+    def __getattr__(self, n):
+        return getattr(_np.ma, n)
+
+    def _cmp(self, name, a, b):
+        if Session.active and (is_sym(a) or is_sym(b)):
+            r = getattr(_np, name)(sa(a) if isinstance(a, _np.ndarray) else a, b)
+            r = _np.asarray(r)
+            if r.dtype == object:
+                r = r.view(SymArr).astype(bool)
+            return _np.ma.masked_array(_np.asarray(r, dtype=bool))
+        return getattr(_np.ma, name)(a, b)
+
+    def less_equal(self, a, b):
+        return self._cmp("less_equal", a, b)
+
+    def greater_equal(self, a, b):
+        return self._cmp("greater_equal", a, b)
+
+    def less(self, a, b):
+        return self._cmp("less", a, b)
+
+    def greater(self, a, b):
+        return self._cmp("greater", a, b)
+
+
 class NPProxy:
     """Stands in for the module-global ``np`` inside porepy modules."""
 
     linalg = _LinalgProxy()
+    ma = _MaProxy()
 
     def __getattr__(self, n):
         return getattr(_np, n)
